@@ -649,12 +649,12 @@ class NP:
         return f(Sym.lift(x))
 
     def deg2rad(self, x):
-        return self._el1(x, lambda e: e * NP.pi / Sym.lift(180))
+        return self._el1(x, lambda e: e * (NP.pi / Sym.lift(180)))     # numpy: x * (pi/180), one rounding of the constant
 
     radians = deg2rad
 
     def rad2deg(self, x):
-        return self._el1(x, lambda e: e * Sym.lift(180) / NP.pi)
+        return self._el1(x, lambda e: e * (Sym.lift(180) / NP.pi))     # numpy: x * (180/pi)
 
     degrees = rad2deg
 
